@@ -31,3 +31,58 @@ fn truncated_and_corrupted_handshake_responses_are_errors() {
         }
     }
 }
+
+/// C09: a handshake response / service message decodes to the value that was encoded, also when a free-text field of a service contains the separator characters
+#[test]
+fn service_list_with_separator_characters_round_trips() {
+    use crate::core::msg::handshake::HandshakeResponse;
+    use crate::core::msg::message::Message;
+    use crate::core::process::version::Version;
+    use crate::core::util::serialize::Serialize;
+
+    fn response(services: Vec<PeerService>) -> HandshakeResponse {
+        HandshakeResponse {
+            public_key: [3; 33],
+            signature: [4; 64],
+            is_lite: false,
+            block_fetch_url: "http://node/block/".to_string(),
+            challenge: [5; 32],
+            services,
+            wallet_version: Version::new(1, 2, 3),
+            core_version: Version::new(4, 5, 6),
+        }
+    }
+
+    // control: plain field values come back as they went in, in both carriers
+    let plain = PeerService {
+        service: "chat".to_string(),
+        domain: "saito.io".to_string(),
+        name: "relay".to_string(),
+    };
+    let decoded = HandshakeResponse::deserialize(&response(vec![plain.clone()]).serialize())
+        .expect("plain handshake response decodes");
+    assert_eq!(decoded.services.len(), 1);
+    assert_eq!(decoded.services[0].service, "chat");
+    assert_eq!(decoded.services[0].domain, "saito.io");
+    assert_eq!(decoded.services[0].name, "relay");
+    assert_eq!(decoded.block_fetch_url, "http://node/block/");
+    match Message::deserialize(Message::Services(vec![plain.clone()]).serialize()).unwrap() {
+        Message::Services(list) => assert_eq!(list.len(), 1),
+        other => panic!("decoded as {:?}", other),
+    }
+
+    // one service whose display name contains the two characters the text format uses as separators
+    let odd = PeerService {
+        service: "chat".to_string(),
+        domain: "saito.io".to_string(),
+        name: "relay;mixin|saito.io|wallet".to_string(),
+    };
+    let bytes = response(vec![odd.clone()]).serialize();
+    let decoded = HandshakeResponse::deserialize(&bytes).expect("handshake response decodes");
+    let names: Vec<String> = decoded
+        .services
+        .iter()
+        .map(|s| format!("{}|{}|{}", s.service, s.domain, s.name))
+        .collect();
+    if !(decoded.services.len() == 1 && decoded.services[0].name == odd.name) { witness(format!("1 service (chat, saito.io, name \"relay;mixin|saito.io|wallet\") was encoded into the handshake response and {} services came out: {:?}; the second is a \"mixin\" service this node never announced, because ';' and '|' inside a field are written unescaped, so decode(encode(x)) != x", decoded.services.len(), names)); }
+}
